@@ -15,7 +15,7 @@ git -C /repo worktree add --detach "$WT" HEAD >/dev/null 2>&1 || { echo "worktre
 DEMO=$(ls "$SD"/*_test.go 2>/dev/null | head -1)
 [ -f "$SD/patch.diff" ] && [ -n "$DEMO" ] || { echo "seed dir incomplete: need patch.diff and a *_test.go"; exit 3; }
 # where does the demo go? NOTES.md should say; fall back to the package named in the file's first line + grep
-PKGDIR=$(grep -oE 'x/[a-z/]+/[a-z_0-9]+_test\.go' "$SD/NOTES.md" | head -1 | xargs -r dirname)
+PKGDIR=$( (grep -oE 'x/[a-z/]+/seed[a-z_0-9]*_test\.go' "$SD/NOTES.md"; grep -oE 'x/[a-z/]+/[a-z_0-9]+_test\.go' "$SD/NOTES.md") | head -1 | xargs -r dirname)
 [ -n "$PKGDIR" ] || { echo "cannot find demo placement in NOTES.md"; exit 3; }
 TESTNAME=$(grep -oE '^func (Test[A-Za-z0-9_]+)' "$DEMO" | head -1 | awk '{print $2}')
 run_demo() { ( cd "$WT" && cp "$DEMO" "$PKGDIR/" && env -u GOFLAGS GOPROXY=off go test -vet=off -count=1 -run "^${TESTNAME}\$" "./$PKGDIR/" 2>&1 | tail -15; ); }
